@@ -101,7 +101,7 @@ template<typename Ad, typename Tr> static void run_case(int dist, size_t logStar
 	bool verbose = getenv("C11_VERBOSE") != nullptr;
 	W() = kit::World();
 	std::string outp; std::vector<std::string> oracle;
-	ull g2 = 0, g3 = 0, fb = 0, fullc = 0, refused = 0, migfail = 0, maxg = 0, afails = 0;
+	ull g2 = 0, g3 = 0, fb = 0, fullc = 0, refused = 0, migfail = 0, maxg = 0, afails = 0, chk = 0;
 	{
 		Cont c{Tr(dist, logStart), kit::MM(1)};
 		HS& hs = Ad::hs(c);
@@ -116,7 +116,12 @@ template<typename Ad, typename Tr> static void run_case(int dist, size_t logStar
 			char kind = op[0];
 			long arg = 0, armA = -1, armF = -1; size_t p = 1;
 			while (p < op.size() && isdigit(op[p])) arg = arg * 10 + (op[p++] - '0');
-			if (p < op.size()) { char w = op[p++]; long n = atol(op.c_str() + p); if (w == 'a') armA = n; else armF = n; }
+			while (p < op.size())
+			{	// one or both of a<n> (allocation) and f<n> (hash call)
+				char w = op[p++]; long n = 0;
+				while (p < op.size() && isdigit(op[p])) n = n * 10 + (op[p++] - '0');
+				if (w == 'a') armA = n; else armF = n;
+			}
 			if ((kind == 'i' || kind == 'r' || kind == 'q') && !knownSet.count(arg)) { knownSet.insert(arg); known.push_back(arg); }
 			std::string res, ann = "-";
 			if (kind == 'i' || kind == 'v')
@@ -137,17 +142,17 @@ template<typename Ad, typename Tr> static void run_case(int dist, size_t logStar
 				catch (const std::bad_alloc&) { res = "B"; }
 				catch (const std::invalid_argument&) { res = "K"; }
 				catch (const std::runtime_error& e) { res = (std::string(e.what()) == "Hash table is full") ? "U" : "X"; }
-				bool fired = (armA >= 0) ? (W().fail_alloc == -1) : (armF >= 0) ? (W().fail_func == -1) : false;
+				bool firedA = armA >= 0 && W().fail_alloc == -1, firedF = armF >= 0 && W().fail_func == -1;
 				W().disarm();
 				Obs after = observe<Ad>(c, false);
 				int h = 0, af = 0, r = 0; long m = -1;
-				bool refusedNow = fired && armA == 0 && grow;
+				bool refusedNow = firedA && armA == 0 && grow;
 				if (res == "E") h = 1;
 				else if (res == "B") { if (refusedNow || kind == 'v') r = 1; else af = 1; }
-				else if (fired)
+				else if (firedA || firedF)
 				{
 					if (refusedNow) r = 1;
-					else
+					if (firedF || (firedA && !refusedNow))
 					{
 						bool newHead = after.head != before.head;
 						long oldBefore = newHead ? long(countBefore) : long(countBefore) - long(before.headItems);
@@ -170,6 +175,7 @@ template<typename Ad, typename Tr> static void run_case(int dist, size_t logStar
 				}
 				if (af) ++afails;
 				if (res == "U") ++fullc;
+				if (res == "K" && kind == 'i') ++chk;   // MOMO_CHECK(newCapacity > mCount) failed: the harness never passes invalid arguments
 				if (res != "I" && res != "V" && res != "A")
 				{	// strong guarantee of a failed single insertion / Reserve: nothing observable changed
 					if (after.shape != before.shape || hs.GetCount() != countBefore)
@@ -230,7 +236,7 @@ template<typename Ad, typename Tr> static void run_case(int dist, size_t logStar
 			std::vector<int64_t> tr; bool badv = false; Ad::traverse(c, tr, badv); std::sort(tr.begin(), tr.end());
 			if (badv || tr.size() != twin.size() || !std::equal(tr.begin(), tr.end(), twin.begin())) oracle.push_back("contents differ from twin after completing the migration");
 			outp += " # g2=" + std::to_string(g2) + " g3=" + std::to_string(g3) + " maxg=" + std::to_string(maxg) + " fb=" + std::to_string(fb) + " refused=" + std::to_string(refused)
-				+ " full=" + std::to_string(fullc) + " migfail=" + std::to_string(migfail) + " afail=" + std::to_string(afails) + " extra=" + std::to_string(extra) + " single=" + std::to_string(single);
+				+ " full=" + std::to_string(fullc) + " migfail=" + std::to_string(migfail) + " afail=" + std::to_string(afails) + " extra=" + std::to_string(extra) + " single=" + std::to_string(single) + " chk=" + std::to_string(chk);
 		}
 	}
 	if (sched)
